@@ -122,7 +122,8 @@ class PromiseType final : public PromiseTypeBase<V, E, Lazy, Shared> {
   }
 
   YACLIB_INLINE void Impl(InlineCore& caller) noexcept {
-    this->_executor = std::move(DownCast<BaseCore>(caller)._executor);
+    // copy: the caller can outlive this resumption (Await leaves the future valid, a SharedCore has other consumers)
+    this->_executor = DownCast<BaseCore>(caller)._executor;
     YACLIB_ASSERT(this->_executor != nullptr);
   }
   [[nodiscard]] InlineCore* Here(InlineCore& caller) noexcept final {
